@@ -405,3 +405,21 @@ c.bounded('all directories of at most 2 lights')
 c.cases(SMALL)
 c.requires('inv', 'dir_inv(ls)')
 c.ensures('the-accessors-show-the-directory-as-it-is-now', VIEW_OK)
+
+
+# ---- a light's age is the time since THAT light object was made (i.e. since it was last seen by a discovery):
+#      expiry compares get_age() with the configured age, so the birth time must be taken when the object is built
+LT = 'bardolph/controller/light.py'
+c = contract(LT, 'age_of_new_light', serves=['C13'], name='lemma:Light(...) at t0; get_age() at t1', src='''
+def age_of_new_light(name, group, location):
+    import time as _t
+    t0 = _t.time()
+    light = Light(name, group, location)
+    t1 = _t.time()
+    age = light.get_age()
+    t2 = _t.time()
+    return (t0, t1, age, t2, light)
+''')
+c.setup(lambda b, case: {'name': b.sym('atom', 'name'), 'group': b.sym('atom', 'group'), 'location': b.sym('atom', 'location')})
+c.ensures('age-counts-from-construction', 'result[2] <= result[3] - result[0] and result[2] >= 0')
+c.ensures('reports-what-it-was-built-with', 'result[4].get_name() is name and result[4].get_group() is group and result[4].get_location() is location')
